@@ -42,11 +42,18 @@ MANIFEST_TEXT = (
     "members - and the theorems gen_guard_is_model, gen_guard_ctor_arms, gen_future_is_model, gen_histories_are_model "
     "(every call history executed by the generated member bodies equals the model's), gen_moves_are_model, "
     "gen_pseudo_is_model, gen_erased_is_model prove, for every state, that what the source says today IS the model all "
-    "other theorems are about (a changed body makes them false or leaves the translator's grammar = broken obligation). "
+    "other theorems are about (a changed body makes them false or leaves the translator's grammar = broken obligation); "
+    "the non-blocking members of mpicommunication.hh / communication.hh are read into a table (what the future is "
+    "constructed from, the one MPI_I* call, which of the future's buffers it gets, request stored in future.req_, future "
+    "returned; copies between the parameters of the sequential members) and gen_operations_start / "
+    "gen_seq_operations_start prove for all parameter values that each member returns exactly the start state the "
+    "future theorems assume (valid, request pending, data_ = receive object, send_data_ = send object); "
+    "unarmed_finalize_never_throws covers finalize on a guard that is not armed. "
     "Tie to the source on every run, second part: the real classes are driven under mpirun (P=1..4, "
     "thorough up to 8) through every guard constructor (default, MPIHelper, MPI_Comm, Communication<MPI_Comm> on split "
     "communicators, sequential Communication<No_Comm>), all 3^P failure patterns for P<=3 embedded in multi-section "
-    "cases, every path of a rank through a section (guard object before x way of arming x act x act of a second rank) "
+    "cases, every path of a rank through a section (guard object before x way of arming x act x act of a second rank; arm n "
+    "constructs the guard with the constructor's DEFAULT argument since round four, arm a passes true, arm m false) "
     "plus random cases, and every non-blocking operation (ibarrier, ibroadcast, igather, iscatter, iallgather, "
     "iallreduce two-argument and in-place, isend/irecv (since round four also with lvalue buffers), default-constructed) "
     "x payload types (void, int, vector, bool, lvalue buffers int&/vector<int>&) x wrapper (the future itself, move-assigned into a default-constructed object, "
@@ -77,7 +84,8 @@ MANIFEST_NOTE = (
     "e.g. try/catch, loops, a new kind of statement in a future member) is reported as a broken obligation even if it is "
     "behaviour preserving; restyling inside the grammar (renamed locals, std::exchange, commuted conditions, != 0 for > 0, "
     "early return, other swap order, static_cast, other exception texts) is silent. The constructors' communicator "
-    "argument, GuardCommunicator and the non-blocking members of (mpi)communication.hh are not translated (run + oracle only); "
+    "argument and GuardCommunicator are not translated (run + oracle only), of the non-blocking members of (mpi)communication.hh "
+    "only the construction/return of the future is (lengths, datatypes, the reduction: C07); "
     "finalize() on a guard that is not armed is modelled and proved silent (unarmed_finalize_never_throws) but not generated."
 )
 TECHNIQUE = ("Lean 4 proof over program-with-collectives model (lock-step semantics, induction over sections and call "
@@ -103,7 +111,7 @@ RULE = ("translator: Gen/C19.lean regenerated from the tree under test before th
         "rank made a judged call (idle-only ranks and steps consisting of '-'/'c' only are trivial)")
 ASSUMPTIONS = [
     "MPI is trusted: collectives on one communicator match in order and deliver the sum to every member; a request completes iff its operation completed; MPI_Wait returns then; MPI_Test may answer 'not complete' for an active request",
-    "the Lean model lean/DuneVerif/Model/C19.lean is hand-written; since round four the bodies of finalize/reactivate/~MPIGuard, the constructors' active_ initialisers and defaults, and the members valid/wait/ready/get/get_send_data/operator=/move constructor of the future classes are regenerated from the source by tools/translators/tr_c19.py and proved equal to it (gen_* theorems); the meaning given to the statement kinds (lean Interp.*: MPI_Wait, MPI_Test, buffer get) and everything else (communicators, non-blocking members of the communication classes, wrappers) rests on this differential run",
+    "the Lean model lean/DuneVerif/Model/C19.lean is hand-written; since round four the bodies of finalize/reactivate/~MPIGuard, the constructors' active_ initialisers and defaults, the members valid/wait/ready/get/get_send_data/operator=/move constructor of the future classes and the future-construction part of the non-blocking members of both communication classes are regenerated from the source by tools/translators/tr_c19.py and proved equal to it (gen_* theorems); the meaning given to the statement kinds (lean Interp.*: MPI_Wait, MPI_Test, buffer get) and everything else (communicators, non-blocking members of the communication classes, wrappers) rests on this differential run",
     "theorems sections_agree/agreement/no_failure_no_error assume a matched end of the case (no member or every member of a communicator ends with a successful reactivate()); guard_deadlock_iff proves that exactly the other cases deadlock (a rank that re-armed owes another section); the harness and the driver reject those lines",
     "a re-used future variable is assigned to only after its previous operation has been waited for or taken (the harness never assigns over a request in flight: ~MPIFuture would MPI_Cancel it); the previous operation has the same kind and other values in every entry",
     "the collective results the futures deliver (sum/min/max, gather, scatter, broadcast, send/recv) are computed from the contributions at specification level; their MPI implementation is C07's subject",
